@@ -195,6 +195,26 @@ def run(chk):
         judge(chk, sc, o)
     from harness.checks.C04 import ffail_tie
     ffail_tie(chk, scs, obs)      # the timeout handler as one of the parties that report a failing call
+    # "only if": a task that was given no time limit is never timed out, whatever limits earlier calls on the same workers had — an apply
+    # batch with a limit followed by one without that contains a long task; a kept-alive map call with a limit followed by such a batch
+    nt = []
+    for _ in range(60 if chk.tier == 'quick' else 900):
+        nj = rng.choice([1, 2, 3])
+        k = rng.randint(1, 4)
+        long_task = rng.randrange(k)
+        later = {'op': 'apply_batch', 'tasks': [{'idx': i} for i in range(k)], 'get_timeout': 60,
+                 'dur': {'kind': 'map', 'map': {str(long_task): rng.choice([0.5, 1.0, 3.0])}, 'default': 0.01}}
+        if rng.random() < .5:
+            first = {'op': 'apply_batch', 'tasks': [{'idx': i} for i in range(rng.randint(1, 3))], 'task_timeout': rng.choice([0.2, 0.3]), 'get_timeout': 60,
+                     'dur': {'kind': 'map', 'map': {}, 'default': 0.01}}
+            pool = {'n_jobs': nj, 'start_method': 'fork'}
+        else:
+            first = {'op': rng.choice(['map', 'imap_unordered']), 'n': rng.randint(2, 6), 'chunk_size': 1, 'task_timeout': rng.choice([0.2, 0.3]),
+                     'dur': {'kind': 'map', 'map': {}, 'default': 0.01}}
+            pool = {'n_jobs': nj, 'start_method': 'fork', 'keep_alive': True}
+        nt.append({'seed': rng.randint(0, 10 ** 6), 'pool': pool, 'ops': [first, later]})
+    run_scenarios(chk, 'a task without a time limit after calls that had one, on the same workers (DetSim)', nt, {'C09', 'C03'}, nontrivial=lambda sc, o: True,
+                  dist=lambda sc, o: {'first': sc['ops'][0]['op'], 'n_jobs': sc['pool']['n_jobs']})
     ms = mixed_scenarios(rng, 80 if chk.tier == 'quick' else 1200)
     mobs = run_scenarios(chk, 'an apply task times out while a map-family call without timeouts runs on the same pool (DetSim)', ms, {'C01', 'C02'},
                          nontrivial=lambda sc, o: True, dist=lambda sc, o: {'map_kind': sc['ops'][1]['op'], 'n_jobs': sc['pool']['n_jobs']})
